@@ -24,7 +24,7 @@ def run(tier):
     run.outside = ['texts outside the menu (symbolic strings are bug-hunting only with this tool)', 'tokens that Python int() accepts beyond plain decimal (+1, 1_0, unicode digits)', 'file-system failures']
     run.assumptions = ['the strict reader is the meaning of "the clauses written in the text"', 'CrossHair exhaustiveness accounting over the finite menus']
     T = 300 if tier == 'quick' else 1500
-    names = ['h_e_shape', 'h_e_texts', 'h_e_separators', 'h_e_big', 'h_e_two_reads'] + ['h_e_read3_%d' % i for i in range(20)]
+    names = ['h_e_shape', 'h_e_texts', 'h_e_separators', 'h_e_big', 'h_e_two_reads', 'h_e_named_file'] + ['h_e_read3_%d' % i for i in range(20)]
     if tier != 'quick':
         names += ['h_e_read4_%d' % i for i in range(20)]
     conds = [xengine.Cond('c06', n, T, symbolic=False) for n in names]
